@@ -192,6 +192,11 @@ func (r *rw) rewriteSelect(s *ast.SelectStmt) ast.Stmt {
 		idx++
 	}
 	args[1] = ast.NewIdent(hasDefault)
+	if hasDefault == "false" {
+		// a select without default is a terminating statement when all its clauses are;
+		// keep that property for the switch (Select never returns -1 here)
+		clauses = append(clauses, &ast.CaseClause{List: nil, Body: []ast.Stmt{&ast.ExprStmt{X: &ast.CallExpr{Fun: ast.NewIdent("panic"), Args: []ast.Expr{lit("vsched: unreachable select default")}}}}})
+	}
 	return &ast.SwitchStmt{Tag: call("vsched", "Select", args...), Body: &ast.BlockStmt{List: clauses}}
 }
 
